@@ -204,8 +204,9 @@ class RFIMask:
                 self.header.chan_freqs <= freq_range[1],
             )
             user_mask = np.logical_or(user_mask, mask)
-        self.user_mask = user_mask
-        self.chan_mask = np.logical_or(self.chan_mask, user_mask)
+        # Every component only ever gains channels, like the union of them
+        self.user_mask = np.logical_or(self.user_mask, user_mask)
+        self.chan_mask = np.logical_or(self.chan_mask, self.user_mask)
 
     def apply_method(self, method: MaskMethods = "mad") -> None:
         """Apply a mask method using channel statistics.
@@ -230,7 +231,9 @@ class RFIMask:
         mask_var = method_funcn(self.chan_var, self.threshold)
         mask_skew = method_funcn(self.chan_skew, self.threshold)
         mask_kurtosis = method_funcn(self.chan_kurt, self.threshold)
-        self.stats_mask = np.logical_or.reduce((mask_var, mask_skew, mask_kurtosis))
+        self.stats_mask = np.logical_or.reduce(
+            (self.stats_mask, mask_var, mask_skew, mask_kurtosis),
+        )
         self.chan_mask = np.logical_or(self.chan_mask, self.stats_mask)
 
     def apply_funcn(self, custom_funcn: Callable[[np.ndarray], np.ndarray]) -> None:
@@ -250,7 +253,7 @@ class RFIMask:
         if not callable(custom_funcn):
             msg = f"{custom_funcn} is not callable"
             raise TypeError(msg)
-        self.custom_mask = custom_funcn(self.chan_mask)
+        self.custom_mask = np.logical_or(self.custom_mask, custom_funcn(self.chan_mask))
         self.chan_mask = np.logical_or(self.chan_mask, self.custom_mask)
 
     def to_file(self, filename: str | None = None) -> str:
